@@ -341,10 +341,12 @@ func prepToken(text string) string {
 
 // escapeString correctly escapes a snippet for printing.
 func escapeString(token string) string {
-	// check if token contains characters that need to be escaped
-	if strings.ContainsAny(token, "()\"\\\t\r\n ") {
+	// check if token is empty or contains characters that need to be escaped
+	if token == "" || strings.ContainsAny(token, "()\"\\\t\r\n ") {
 		// put the token in parenthesis and only escape \ and "
-		return fmt.Sprintf("\"%s\"", strings.ReplaceAll(token, "\"", "\\\""))
+		token = strings.ReplaceAll(token, "\\", "\\\\")
+		token = strings.ReplaceAll(token, "\"", "\\\"")
+		return fmt.Sprintf("\"%s\"", token)
 	}
 	return token
 }
